@@ -10,6 +10,7 @@ rsync -a --exclude .git /repo/ $d/
 perl -0pi -e "$expr" $d/$file
 if diff -q /repo/$file $d/$file >/dev/null; then echo "MUTATION DID NOT APPLY"; rm -rf $d; exit 3; fi
 (cd $d && go build ./... 2>&1 | head -5)
+mkdir -p $d/.verif; cp /verif/known_findings.json $d/.verif/
 for p in ${props//,/ }; do
   GOAT_REPO=$d VERIF_DIR=$d/.verif /verif/bin/goatcheck $p quick | grep -E "^(VIOLATION|UNDECIDED|OK|BROKEN)" | cut -c1-400
 done
